@@ -7,6 +7,8 @@ CONSTANTS MaxOrd = 2
  Faults = 2
  Fails = 2
  MaxFaultPos = 5
+ QueueDriven = FALSE
+ ClaimCounts = {0}
  InitMode = "any"
  Depth = 24
 INIT SimInit
